@@ -3,6 +3,7 @@
 package app
 
 import (
+	"slices"
 	"fmt"
 	"math/rand"
 	"sort"
@@ -203,6 +204,11 @@ func c04one(t *testing.T, out *verifh.Out, r *rand.Rand, dir string) {
 			if r.Intn(4) == 0 {
 				nd.Executed = fmt.Sprintf("%s:1-%d", um, 90+r.Intn(21)) // behind, equal, or ahead of the master's snapshot
 			}
+		}
+		// the recovery mark is independent of the host's condition (a dead or dubious ex-master is marked, too)
+		if r.Intn(8) == 0 && !slices.Contains(recovery, h) {
+			recovery = append(recovery, h)
+			tree.Put("recovery/"+h, nil)
 		}
 		dcsView[h] = &nodestate.NodeState{PingOk: healthPing}
 	}
